@@ -375,4 +375,18 @@ CHECKS = {
         assumptions=["requires CAP_SYS_CHROOT (uid 0) as in this sandbox; a worker crash is counted, not asserted"],
         technique="structured fuzzing of key strings in a chroot jail, file-system snapshot oracle",
     ),
+    "C07": dict(
+        test="TestC07", level="exploration", shards=16,
+        tiers=dict(quick=dict(checks=6, timeout=600), thorough=dict(checks=200, timeout=3000)),
+        rule="rapid concurrent programs: 2-16 writer goroutines x 5-40 single-row writes to own or one shared bucket "
+             "(fixed or variable), background WAL writer with production timers (500ms/5min) or short ones (1-5ms); "
+             "immediately after each WriteCSM returns the writer (a) queries exactly the written interval and must see its "
+             "uniquely tagged row, (b) re-reads the WAL file and must find the tag inside a complete, checksum-valid "
+             "TGDATA record followed by its WAL COMMITCOMPLETE record (own parser); the fsync ordering of the same "
+             "acknowledgements is checked on strace recordings by C05 (P2); non-trivial = programs in which some write "
+             "was acknowledged from a transaction group that also carried other writers' data",
+        assumptions=["schedules are sampled", "durability here = committed record present in the WAL file; the fsync "
+                     "that precedes the acknowledgement is asserted from system-call traces in C05"],
+        technique="generated concurrent programs with schedule-independent per-operation oracle",
+    ),
 }
